@@ -32,12 +32,16 @@ def history(ctx, rng, s, op):
     if base1:
         prog.append('%d OPTION BASE 1' % ln); ln += 10
     names = []
-    pool = [('A!', 'num'), ('C%', 'num'), ('D#', 'num'), ('G!', 'num'), ('B$', 'str'), ('H$', 'str'), ('E!', 'arr'), ('F%', 'arr'), ('S$', 'sarr')]
+    # scalars and arrays may share a name (E! and E!(), F% and F%(), S$ and S$()): COMMON names one of them, not the other
+    # (round-2 seeded change C23b kept the scalar when only the array was declared)
+    pool = [('A!', 'num'), ('C%', 'num'), ('D#', 'num'), ('G!', 'num'), ('B$', 'str'), ('H$', 'str'), ('E!', 'arr'), ('F%', 'arr'), ('S$', 'sarr'),
+            ('E!', 'num'), ('F%', 'num'), ('S$', 'str')]
     rng.shuffle(pool)
-    chosen = pool[:rng.randint(2, 7)]
-    commons = [n for (n, k) in chosen if rng.random() < 0.45]
+    chosen = pool[:rng.randint(2, 8)]
+    cname = lambda n, k: n + ('()' if k in ('arr', 'sarr') else '')
+    commons = [cname(n, k) for (n, k) in chosen if rng.random() < 0.45]
     if op.startswith('CHAIN') and commons:
-        decl = ','.join(n + ('()' if k in ('arr', 'sarr') else '') for (n, k) in chosen if n in commons)
+        decl = ','.join(commons)
         prog.append('%d COMMON %s' % (ln, decl)); ln += 10
     for (n, k) in chosen:
         if k == 'num':
@@ -131,7 +135,7 @@ def history(ctx, rng, s, op):
     q = s.ev('RND')
     grnd = (q[0] == 'ok' and abs(q[1] - FIRST_RND[0]) < 1e-9)
     ev = {'op': op, 'commons': commons,
-          'set': {'vars': [{'name': v['name'], 'kind': v['kind'], 'val': v['val']} for v in vars_],
+          'set': {'vars': [{'name': v['name'] + ('()' if v['kind'] in ('arr', 'sarr') else ''), 'kind': v['kind'], 'val': v['val']} for v in vars_],
                   'fn': fn, 'defint': defint, 'base1': base1, 'rnd': rnd},
           'got': {'vars': got, 'fn': gfn, 'defint': gdefint, 'base1': gbase1, 'rnd': grnd, 'dimok': dimok}}
     return ev, prog
